@@ -27,6 +27,16 @@ impl Failure {
     pub fn new(sig: impl Into<String>, detail: impl Into<String>) -> Self {
         Failure { sig: sig.into(), detail: detail.into() }
     }
+    /// the generator's feature tags of the failing program, as a line of `[feature:<name>]` items
+    pub fn with_features(mut self, features: &[String]) -> Self {
+        if !self.detail.contains("\nprogram-features:") {
+            self.detail.push_str("\nprogram-features:");
+            for f in features {
+                self.detail.push_str(&format!(" [feature:{}]", f));
+            }
+        }
+        self
+    }
 }
 
 #[derive(Clone, Debug, Serialize, Deserialize)]
@@ -48,6 +58,11 @@ pub struct KnownFinding {
     /// ... and its detail contains every one of these substrings
     #[serde(default)]
     pub detail_contains: Vec<String>,
+    /// ... and, when this list is not empty, at least one of these substrings (program checks append the
+    /// generator's feature tags of the failing program to the detail as `[feature:<name>]`, so that a finding
+    /// that needs a certain construct does not hide failures of programs without it)
+    #[serde(default)]
+    pub detail_any: Vec<String>,
     /// short text for the KNOWN-FINDING line (defaults to `what`)
     #[serde(default)]
     pub line: String,
@@ -248,6 +263,7 @@ impl Ctx {
                 && !k.sig.is_empty()
                 && sig_matches(&k.sig, &f.sig)
                 && k.detail_contains.iter().all(|d| f.detail.contains(d))
+                && (k.detail_any.is_empty() || k.detail_any.iter().any(|d| f.detail.contains(d)))
         })
     }
 
